@@ -1,2 +1,88 @@
-(* C08 -- property theorems only (placeholder while the proofs are being written) *)
+(* C08 -- CPU allocator contract.  Property theorems only; each is closed by [exact] of a lemma
+   from CpuAlloc_Proofs and followed by Print Assumptions.
+
+   Quantification: every topology [t] satisfying the decidable predicate [topo_wf] (CPU ids
+   distinct, packages pairwise disjoint, online thread-sibling sets equal-or-disjoint, clusters
+   pairwise disjoint, cache groups pairwise disjoint -- evaluated by the kernel on every topology
+   the check runs), every order record [o] whose six order functions return a permutation of
+   their argument (so: whatever the comparators and the sort algorithm do), every priority
+   preference, every flag mask (any N, only bits 0-3 are read), every candidate set of online CPUs
+   and every count. *)
+From stdpp Require Import gmap sets fin_sets sorting.
+From Coq Require Import ZArith.
 From NV Require Import CpuAlloc_Model CpuAlloc_Proofs.
+Open Scope Z_scope.
+
+(* clause 1: allocating n <= |set| CPUs returns exactly n CPUs taken from the set and removes
+   exactly those from it *)
+Theorem C08_alloc_contract : forall t o prefer, topo_wf t -> orders_ok o -> forall flags from cnt,
+  from ⊆ online t -> 0 <= cnt <= sz from ->
+  exists r lvl, allocate_cpus t o prefer flags from cnt = (Ok r, from ∖ r, lvl) /\ r ⊆ from /\ sz r = cnt.
+Proof. exact alloc_contract. Qed.
+Print Assumptions C08_alloc_contract.
+
+(* clause 3: a request for more CPUs than the set holds fails and leaves the set unchanged
+   (for every topology, well-formed or not, and every order) *)
+Theorem C08_alloc_too_many : forall t o prefer flags from cnt,
+  sz from < cnt -> allocate_cpus t o prefer flags from cnt = (Err, from, 0%N).
+Proof. exact alloc_too_many. Qed.
+Print Assumptions C08_alloc_too_many.
+
+Theorem C08_alloc_all : forall t o prefer flags from,
+  allocate_cpus t o prefer flags from (sz from) = (Ok from, ∅, 0%N).
+Proof. exact alloc_all. Qed.
+Print Assumptions C08_alloc_all.
+
+(* clause 2: ReleaseCpus(set, n), n <= |set|, splits the set into exactly n released CPUs and the
+   others.  As implemented (ReleaseCpus = allocateCpus(from, |from|-n)), the n released CPUs are
+   what is left in *from and the returned set holds the CPUs that stay. *)
+Theorem C08_release_contract : forall t o prefer, topo_wf t -> orders_ok o -> forall flags from n,
+  from ⊆ online t -> 0 <= n <= sz from ->
+  exists kept rel lvl, release_cpus t o prefer flags from n = (Ok kept, rel, lvl) /\
+    rel ⊆ from /\ sz rel = n /\ kept = from ∖ rel /\ sz kept = sz from - n.
+Proof. exact release_contract. Qed.
+Print Assumptions C08_release_contract.
+
+(* the instance used in the correspondence check (modelled Go comparators + insertion sort) is
+   covered by the theorems above *)
+Theorem C08_go_orders_ok : forall t prefer, orders_ok (go_orders t prefer).
+Proof. exact go_orders_ok. Qed.
+Print Assumptions C08_go_orders_ok.
+
+(* the restriction of the candidate set to online CPUs is necessary: with offline CPUs in the set
+   the allocator can answer success with an empty result after removing CPUs from the set
+   (witness replayed against the implementation by the check) *)
+Theorem C08_alloc_offline_refuted :
+  exists t o p flags from cnt, topo_wf t /\ orders_ok o /\ 0 <= cnt <= sz from /\
+    allocate_cpus t o p flags from cnt = (Ok ∅, {[1%N; 2%N]}, 0%N) /\ cnt = 2 /\ from = {[0%N; 1%N; 2%N]}.
+Proof. exact alloc_offline_refuted. Qed.
+Print Assumptions C08_alloc_offline_refuted.
+
+(* the hypotheses of the contract theorems are satisfiable *)
+Theorem C08_hypotheses_satisfiable :
+  exists t o from cnt, topo_wf t /\ orders_ok o /\ from ⊆ online t /\ 0 < cnt <= sz from.
+Proof. exact hyps_satisfiable. Qed.
+Print Assumptions C08_hypotheses_satisfiable.
+
+(* determinism, part 1: the comparator of takeIdlePackages and takeIdleCores (cmpCPUSet with
+   cpuCnt = -1, then id) is a strict total order on keys with distinct ids -- for every topology
+   (any per-priority sizes) and preference: its sorted permutation is unique *)
+Theorem C08_pkg_core_order_total : forall p,
+  (forall a, set_less p a a = false) /\
+  (forall a b c, set_less p a b = true -> set_less p b c = true -> set_less p a c = true) /\
+  (forall a b, a.2 <> b.2 -> set_less p a b = true \/ set_less p b a = true) /\
+  (forall a b, set_less p a b = true -> set_less p b a = false).
+Proof.
+  exact (fun p => conj (set_less_irrefl p) (conj (set_less_trans p) (conj (set_less_total p) (set_less_asym p)))).
+Qed.
+Print Assumptions C08_pkg_core_order_total.
+
+(* determinism, part 2 (per sort call): if the boolean check [forcedb] passes on a candidate
+   list (the check the correspondence evaluates at every sort of every case), every permutation
+   in which no element is less than its predecessor -- the result of any correct sorting
+   algorithm -- equals it.  The thread/cluster/cache-group comparators can tie or be
+   non-transitive; for them this is a per-input check. *)
+Theorem C08_sorted_perm_unique : forall (A : Type) (less : A -> A -> bool) l1 l2,
+  forcedb less l1 = true -> l2 ≡ₚ l1 -> Sorted (fun a b => less b a = false) l2 -> l2 = l1.
+Proof. exact @sorted_perm_unique. Qed.
+Print Assumptions C08_sorted_perm_unique.
